@@ -220,7 +220,10 @@ def project(out: Dict[str, Any], ntx: int) -> Tuple[List[str], Optional[str]]:
         elif a == "G" and any(p.startswith("GarbageCollector.") for p in phase):
             if op == "list_files" and path.rstrip("/") == "metadata/inflight":
                 evs.append("GMarks")
-            elif op in ("read_file",) and pcs == "hint" and "GarbageCollector.collect" in phase and "GarbageCollector._load_inflight_protection" not in phase:
+            elif op in ("read_file",) and pcs == "hint" and "GarbageCollector.collect" in phase and "GarbageCollector._load_inflight_protection" not in phase \
+                    and "GarbageCollector._require_hinted_metadata_present" not in phase:
+                # (the hint re-read of _require_hinted_metadata_present only decides abort / go on: the view of the table
+                #  the sweeps use is the one refresh() took -- a stutter step of the model)
                 evs.append("GMeta")
             elif op == "list_files" and path.rstrip("/") in ("data", "metadata/manifests"):
                 evs.append(f"GList {GRACE}")
